@@ -238,6 +238,20 @@ def fam_tinydense(r, n):
         tries += 1
     return norm(out)
 
+def fam_stempairs(r, n):
+    # random stems over a small alphabet, each with one to three tiny suffixes: buckets whose internal strings are a prefix-length
+    # byte and one letter, so that the chunk ending a bucket header reaches over whole internal strings and beyond the bucket
+    alpha = r.choice([b"cdefgh", b"cd", b"cdefghijklmnop", b"cdefghijklmnop", b"cdefghijklmnopqrstuvwxyz", b"cdefghijklmnopqrstuvwxyz", b"cde"])
+    lo = r.choice([1, 2, 4, 4, 8, 8, 10, 12]); hi = lo + r.choice([0, 1, 2, 4])
+    suf = r.choice([(b"a", b"b"), (b"a", b"b"), (b"a",), (b"a", b"b", b"c"), (b"", b"a")])
+    out = set()
+    tries = 0
+    while len(out) < n and tries < 20 * n:
+        st = bytes(r.choice(alpha) for _ in range(r.randint(lo, hi)))
+        out.update(st + x for x in suf if st + x)
+        tries += 1
+    return norm(out)
+
 def fam_longcode(r, n):
     # ~160 KB of text over 10 letters whose frequencies double, plus a few bytes that occur once: together with the weight-1 entries the
     # Huffman / Hu-Tucker models give unused bytes, the rare symbols get codewords longer than the 16-bit decoding-table chunk, so
@@ -274,7 +288,7 @@ FAMILIES = {
     "words": fam_words, "urls": fam_urls, "numerals": fam_numerals, "chain": fam_chain, "near": fam_near,
     "len1": fam_len1, "samelen": fam_samelen, "vbyte": fam_vbyte, "longshort": fam_longshort, "long": fam_long,
     "repetitive": fam_repetitive, "copies": fam_copies, "extremes": fam_extremes, "norepeat": fam_norepeat,
-    "last_single": fam_last_single, "skewed": fam_skewed, "dense": fam_dense, "lcp128x": fam_lcp128x, "longcode": fam_longcode, "tinydense": fam_tinydense,
+    "last_single": fam_last_single, "skewed": fam_skewed, "dense": fam_dense, "lcp128x": fam_lcp128x, "longcode": fam_longcode, "tinydense": fam_tinydense, "stempairs": fam_stempairs,
 }
 
 def corner_corpus():
